@@ -653,6 +653,9 @@ func (j *JL) Enabled(rng *rand.Rand, maxTime int, faultP float64, applied bool) 
 				fs = append(fs, "applied")
 			}
 			l.F = fs[rng.Intn(len(fs))]
+			if pend := j.P.Stp.Pending(); pend != nil && pend.Op() == "create/pods" && rng.Intn(4) == 0 {
+				l.F = "invalid" // the Pod is refused for good
+			}
 		}
 		add(l, 4)
 	} else if q.IsReady(k) && !(j.O.Fresh && (w.Inf.Jobs.Pending() > 0 || w.Inf.Pods.Pending() > 0)) {
